@@ -84,7 +84,7 @@ Start == phase = "build" /\ open = <<>> /\ n > 0 /\ phase' = "run" /\ UNCHANGED 
 
 \* ---------------- R-level: tree walking.  st = [c, i, trace, fuel]; executes lines lo..hi-1
 RECURSIVE RunBlock(_,_,_), RunIf(_,_,_,_), RunWhile(_,_), RunFor(_,_,_)
-Tick(st) == [st EXCEPT !.fuel = @ - 1]
+Tick(st) == [st EXCEPT !.fuel = IF @ = 0 THEN 0 ELSE @ - 1]
 RunBlock(lo, hi, st) ==
   IF lo >= hi \/ st.fuel = 0 THEN st
   ELSE LET ln == prog[lo+1] IN
